@@ -15,7 +15,7 @@ def _worker(recs):
         try:
             a = gx.load(ta, name="m")
         except Exception as ex:  # noqa: BLE001
-            res["problems"].append(f"original does not load: {type(ex).__name__}")
+            res["problems"].append(f"original-does-not-load:{type(ex).__name__}")
             out.append(res)
             continue
         try:
